@@ -11,6 +11,9 @@ Definition outcome_eqb (a b : outcome) : bool :=
   | ODecodeError, ODecodeError | OOther, OOther => true | _, _ => false
   end.
 
+(* one step of a history on a package object: a change, or to_bytes / to_str (str = true) with a zstd level *)
+Inductive hstep := HMut | HEnc (str : bool) (zstd : option N).
+
 Inductive case :=
 (* Package.to_bytes(config): the serialised payload, pyzstd's output for it, the envelope produced *)
 | CMake (zstd : option N) (payload compressed envelope : bytes)
@@ -20,8 +23,18 @@ Inductive case :=
 | CRead (valid : bool) (input : bytes) (dec_ok : bool) (parse_plain parse_dec : option bool) (obs : outcome)
 (* EnvelopeHeader.from_bytes on MAGIC + every (format, flags) pair: the accepted ones *)
 | CSweep (accepted : list (N * N * (N * bool))) (n_value_errors n_other : N)
-(* EnvelopeHeader.from_bytes on every prefix of an envelope: lengths that were accepted *)
-| CTrunc (envelope : bytes) (accepted_lengths : list nat) (n_value_errors : nat).
+(* EnvelopeHeader.from_bytes on every prefix of an envelope: lengths that were accepted, lengths at which
+   something other than ValueError was raised, number of ValueErrors *)
+| CTrunc (envelope : bytes) (accepted_lengths other_lengths : list nat) (n_value_errors : nat)
+(* a history on ONE package object (and, when shared, one EnvelopeConfig object): encodings and changes of the
+   module list / modules / extensions / config, ending in an encoding.  Observed for the LAST encoding:
+   `payload` is the document of a fresh, never-encoded package built with the same contents, `compressed`
+   pyzstd's output for it, `envelope` what the object returned, then the oracle answers and the outcome of
+   decoding that envelope (Package.from_bytes / from_str), compared with the fresh package's documents *)
+| CSeq (hist : list hstep) (payload compressed envelope : bytes) (dec_ok : bool)
+       (parse_plain parse_dec : option bool) (obs : outcome)
+(* an encoding of a JSON configuration (or building the package) raised: exception class only *)
+| CRaised (obs : outcome).
 
 Definition marker : bytes := [0].
 Definition oracle_parse (pp pd : option bool) (b : bytes) : option bool :=
@@ -45,6 +58,30 @@ Definition model_accepted : list (N * N * (N * bool)) :=
     end) pairs256.
 Definition acc_eqb := pair_eqb (pair_eqb N.eqb N.eqb) (pair_eqb N.eqb Bool.eqb).
 
+(* the history run through the model: contents = number of changes so far; only the final contents' document
+   is known (observed on a fresh object), which is all the last encoding may depend on *)
+Definition hist_steps (h : list hstep) : list (step N) :=
+  map (fun s => match s with
+                | HMut => SMutate N N.succ
+                | HEnc false z => SEncode N {| cformat := JSON; czstd := z |}
+                | HEnc true z => SEncodeStr N {| cformat := JSON; czstd := z |}
+                end) h.
+Definition n_muts (h : list hstep) : N :=
+  N.of_nat (length (filter (fun s => match s with HMut => true | _ => false end) h)).
+Definition hist_last (h : list hstep) (payload compressed : bytes) : option (N * res bytes) :=
+  let final := n_muts h in
+  last (map Some (run_steps N (fun v => if v =? final then payload else []) (fun _ _ => compressed)
+                            (fun _ => true) 0 (hist_steps h))) None.
+Definition hist_zstd (h : list hstep) : option (option N) :=
+  match last (map Some h) None with Some (HEnc _ z) => Some z | _ => None end.
+
+Definition header_documented (z : option N) (payload compressed envelope : bytes) : bool :=
+  bytes_eqb (firstn 8 envelope) MAGIC && (nth 8 envelope 0 =? 63) &&
+  Bool.eqb (N.testbit (nth 9 envelope 0) 0) (match z with Some _ => true | None => false end) &&
+  negb (N.testbit (nth 9 envelope 0) 7) && N.testbit (nth 9 envelope 0) 6 &&
+  bytes_eqb (skipn 10 envelope) (match z with Some _ => compressed | None => payload end).
+Definition known_format (b : N) : bool := mem N.eqb b [1; 2; 63].
+
 Definition corr (c : case) : bool :=
   match c with
   | CMake z payload compressed envelope =>
@@ -61,20 +98,23 @@ Definition corr (c : case) : bool :=
   | CRead valid input dec_ok pp pd obs => outcome_eqb obs (read_model input dec_ok pp pd)
   | CSweep acc nve nother =>
       list_eqb acc_eqb acc model_accepted && (nve =? 65536 - N.of_nat (length model_accepted)) && (nother =? 0)
-  | CTrunc env lens nve =>
+  | CTrunc env lens others nve =>
       let ok := filter (fun n => match header_from_bytes (firstn n env) with Ok _ => true | _ => false end)
                        (seq 0 (S (length env))) in
-      list_eqb Nat.eqb lens ok && Nat.eqb nve (S (length env) - length ok)
+      list_eqb Nat.eqb lens ok && Nat.eqb nve (S (length env) - length ok) &&
+      match others with [] => true | _ => false end
+  | CSeq h payload compressed envelope dec_ok pp pd obs =>
+      match hist_last h payload compressed with
+      | Some (v, Ok e) => (v =? n_muts h) && bytes_eqb e envelope
+      | _ => false
+      end && outcome_eqb obs (read_model envelope dec_ok pp pd)
+  | CRaised _ => false          (* the model encodes every JSON configuration *)
   end.
 
 (* monitor: the documented format, stated directly on the observations *)
 Definition mon (c : case) : bool :=
   match c with
-  | CMake z payload compressed envelope =>
-      bytes_eqb (firstn 8 envelope) MAGIC && (nth 8 envelope 0 =? 63) &&
-      Bool.eqb (N.testbit (nth 9 envelope 0) 0) (match z with Some _ => true | None => false end) &&
-      negb (N.testbit (nth 9 envelope 0) 7) && N.testbit (nth 9 envelope 0) 6 &&
-      bytes_eqb (skipn 10 envelope) (match z with Some _ => compressed | None => payload end)
+  | CMake z payload compressed envelope => header_documented z payload compressed envelope
   | CStr f z utf8 obs =>
       match f with JSON => true | _ => outcome_eqb obs OValueError end
   | CRead valid input dec_ok pp pd obs =>
@@ -87,6 +127,22 @@ Definition mon (c : case) : bool :=
       forallb (fun '(fb, fl, (fv, z)) => mem N.eqb fb [1; 2; 63] && (fv =? fb) && Bool.eqb z (N.odd fl)) acc &&
       (N.of_nat (length acc) =? 768) && (nve =? 65536 - 768) && (nother =? 0) &&
       nodupb (pair_eqb N.eqb N.eqb) (map fst acc)
-  | CTrunc env lens nve =>
-      forallb (fun n => Nat.leb 10 n) lens
+  | CTrunc env lens others nve =>
+      (* every prefix: shorter than a header, other magic number or unknown format byte => ValueError (not
+         decoded, and no other exception class); otherwise decoded *)
+      forallb (fun n => let d := firstn n env in
+                 Bool.eqb (mem Nat.eqb n lens)
+                          (Nat.leb 10 n && bytes_eqb (firstn 8 d) MAGIC && known_format (nth 8 d 0)) &&
+                 negb (mem Nat.eqb n others))
+              (seq 0 (S (length env))) &&
+      nodupb Nat.eqb lens && forallb (fun n => Nat.leb n (length env)) lens &&
+      Nat.eqb nve (S (length env) - length lens)
+  | CSeq h payload compressed envelope dec_ok pp pd obs =>
+      (* the envelope an object gives after any history carries the documented header and the document of its
+         CURRENT contents, and decodes to a package with the same documents *)
+      match hist_zstd h with
+      | Some z => header_documented z payload compressed envelope && outcome_eqb obs (OOk true)
+      | None => false
+      end
+  | CRaised _ => false
   end.
